@@ -5,8 +5,9 @@ one function per method, each returning the new state and the terminal
 operations it writes. Mirrors the source line by line (including the
 `CursorBackward(width)` that ends an inline flush and the one-space frame that
 stands for an empty view). Not modelled: the deprecated ignored-lines /
-scroll-area API and the ANSI compressor. Text metric: one cell per byte
-(ASCII); `ansi.StringWidth` / `ansi.Truncate` are library code.
+scroll-area API and the ANSI compressor. Text metric (`Tea/Prelude/Ansi.lean`):
+one cell per byte except the bytes of escape sequences (styled text), which
+take none; `ansi.StringWidth` / `ansi.Truncate` are library code, modelled there.
 -/
 namespace Tea.Render
 open Tea Tea.VT
@@ -35,8 +36,10 @@ def splitLines (s : Bytes) : List Line :=
     | c :: cs, cur => if c == 10 then cur.reverse :: go cs [] else go cs (c :: cur)
   go s []
 
-def lineWidth (l : Line) : Nat := l.length
-def truncateLine (w : Nat) (l : Line) : Line := l.take w
+/-- `ansi.StringWidth`: the cells a line takes (escape sequences take none) -/
+def lineWidth (l : Line) : Nat := Ansi.width l
+/-- `ansi.Truncate(l, w, "")`: printing bytes beyond `w` cells are dropped, escape sequences kept -/
+def truncateLine (w : Nat) (l : Line) : Line := Ansi.truncate w l
 
 def RState.lastLinesRendered (r : RState) : Nat :=
   if r.altActive then r.altLinesRendered else r.linesRendered
